@@ -236,6 +236,9 @@ def run(ctx):
                          (b"/find.sh\r\n", False), (b"/find.sh\tsecret words of another client\r\n", False), (b"/find.sh\r\n", False),
                          (b"GET /find.sh?searchrequest=over+http HTTP/1.0\r\n\r\n", False), (b"GET /find.sh HTTP/1.0\r\n\r\n", False),
                          (b"h /find.sh 7\r\nspartan", False), (b"h /find.sh 0\r\n", False),
+                         # a Spartan length with more digits than int() converts; the ZIP handler's own index files by name
+                         (b"localhost / " + b"9" * 5000 + b"\r\n", False), (b"localhost /README " + b"1" * 4301 + b"\r\n", False),
+                         (b"/.cache.pygopherd.zip3.arch.zip.dat\r\n", False), (b"GET /.cache.pygopherd.zip3.arch.zip.dir HTTP/1.0\r\n\r\n", False),
                          # two scripts with the same modification second, one after the other
                          (b"/hello.pyg\r\n", False), (b"/docs/two.pyg\r\n", False), (b"/hello.pyg\t!\r\n", False), (b"/docs/two.pyg\t+\r\n", False)]
                 requests = fixed + requests
@@ -312,7 +315,7 @@ def run(ctx):
                     r, dt = ask(cfg, tree, rq, tls, listname == "full")
                     res.evaluations += 1
                     if mask(r.out or b"") != seq_out[i]:
-                        res.violation("C03:history-dependent:" + (r.handler or "nohandler") + (":cache-file" if b".cache.pygopherd.dir" in rq else ""),
+                        res.violation("C03:history-dependent:" + (r.handler or "nohandler") + (":cache-file" if b".cache.pygopherd.dir" in rq else ":zip-index-file" if b".cache.pygopherd.zip3." in rq else ""),
                                       "the response depends on read-only requests served before it",
                                       {"handlers": listname, "request": rq[:200], "tls": tls, "position_in_history": i},
                                       observed=seq_out[i][:200], required=mask(r.out or b"")[:200],
